@@ -1,6 +1,8 @@
 import NmVerif.Basic
 import NmVerif.NDA
 import NmVerif.Lemmas.Addressing
+import NmVerif.Index.MachineAddr
+import NmVerif.Lemmas.MachineAddr
 /-
   C01 — Multi-index <-> flat offset addressing is an order-preserving bijection.
   Only property statements (+ non-vacuity examples) live here.
@@ -137,6 +139,109 @@ theorem intermediates_le_prod (s : Shape) (hs : Pos s) (k : Nat) (hk : k < s.len
   rw [h]
   have hp : 0 < prod (s.take (k+1)) := prod_pos (fun x hx => hs x (List.mem_of_mem_take hx))
   exact Nat.le_mul_of_pos_left _ hp
+
+/-! ### machine width: the element type of the index containers as a parameter (`NmVerif.Index.MachineAddr`)
+
+  `t : ITy` is the element type (width, signedness) of the shape / strides / indices containers; `SZ = 2^64` is the
+  range of `nm_size_t`.  `t.Fits n` (`n < 2^(w-1)` signed, `n < 2^w` unsigned) says that the container can hold `n`.
+  Each theorem states the magnitude hypothesis under which the machine result IS the unbounded SPEC of the theorems above. -/
+
+/-- `compute_strides` in the element type of the shape: exact as soon as the LEADING stride (the product of all
+    extents but the first) fits that type — the element count itself may be far larger (e.g. `int` (3, 2^30)). -/
+theorem mStrides_exact (t : ITy) (s : Shape) (hs : Pos s) (hf : t.Fits (prod s.tail)) :
+    mStrides t s = some (strides s) := mStrides_exact' t s hs hf
+
+/-- `compute_offset` widens every operand to `size_t` before multiplying: whatever the element types `ti`, `ts` (at
+    most 64 bit) of the two containers are, if they can hold the operands and the true offset fits `size_t`,
+    the machine result is the exact dot product. -/
+theorem computeOffset_widened_exact (ti ts : ITy) (hti : ti.bits ≤ 64) (hts : ts.bits ≤ 64) (idx st : List Nat)
+    (hi : ∀ x ∈ idx, ti.Fits x) (hst : ∀ x ∈ st, ts.Fits x) (h : computeOffset idx st < SZ) :
+    mOffset idx st = computeOffset idx st := by
+  unfold mOffset
+  rw [mOffsetFrom_eq idx st 0 (by decide), Nat.zero_add, Nat.mod_eq_of_lt h]
+
+/-- without the magnitude hypothesis the machine offset is the true one modulo `2^64` (nothing else is lost) -/
+theorem computeOffset_widened_mod (idx st : List Nat) : mOffset idx st = computeOffset idx st % SZ := by
+  unfold mOffset
+  rw [mOffsetFrom_eq idx st 0 (by decide), Nat.zero_add]
+
+/-- in-shape multi-index, row-major strides of a shape with at most `2^64` elements: the offset is exact and addresses
+    inside the buffer, for every element type that can hold extents and strides — in particular for 32-bit containers
+    and shapes with more than `2^31` / `2^32` elements. -/
+theorem mOffset_inShape_exact (s : Shape) (idx : Idx) (h : InShape idx s) (hn : prod s ≤ SZ) :
+    mOffset idx (strides s) = computeOffset idx (strides s) ∧ mOffset idx (strides s) < prod s := by
+  have hlt := offset_lt h
+  have e : mOffset idx (strides s) = computeOffset idx (strides s) := by
+    rw [computeOffset_widened_mod, Nat.mod_eq_of_lt (Nat.lt_of_lt_of_le hlt hn)]
+  exact ⟨e, e ▸ hlt⟩
+
+/-- `compute_indices(offset, shape, strides)` with a `size_t` offset and containers of element type `t`: exact (no
+    division by zero, no narrowing loss) when the extents and the leading stride fit `t`. -/
+theorem mIndices_exact (t : ITy) (hb : t.bits ≤ 64) (s : Shape) (hs : Pos s) (hfit : ∀ x ∈ s, t.Fits x)
+    (hf : t.Fits (prod s.tail)) (off : Nat) :
+    mIndices t off s (strides s) = some (ndindex s off) := mIndices_exact' t hb s hs hfit hf off
+
+/-- the two-argument form / `ndindex_t::operator[]` (strides computed in the same element type first) -/
+theorem mNdindex_exact (t : ITy) (hb : t.bits ≤ 64) (s : Shape) (hs : Pos s) (hfit : ∀ x ∈ s, t.Fits x)
+    (hf : t.Fits (prod s.tail)) (off : Nat) :
+    mNdindex t s off = some (ndindex s off) := by
+  unfold mNdindex
+  rw [mStrides_exact' t s hs hf]
+  exact mIndices_exact' t hb s hs hfit hf off
+
+/-- machine-level round trip multi-index → offset → multi-index, every element type -/
+theorem machine_ndindex_offset (t : ITy) (hb : t.bits ≤ 64) (s : Shape) (idx : Idx) (h : InShape idx s)
+    (hfit : ∀ x ∈ s, t.Fits x) (hf : t.Fits (prod s.tail)) (hn : prod s ≤ SZ) :
+    (mStrides t s).bind (fun st => mIndices t (mOffset idx st) s st) = some idx := by
+  have hs := pos_of_inShape h
+  rw [mStrides_exact' t s hs hf]
+  simp only [Option.bind_some]
+  rw [(mOffset_inShape_exact s idx h hn).1, mIndices_exact' t hb s hs hfit hf]
+  exact congrArg some (indices_offset h)
+
+/-- machine-level round trip offset → multi-index → offset, every element type -/
+theorem machine_offset_ndindex (t : ITy) (hb : t.bits ≤ 64) (s : Shape) (hs : Pos s) (off : Nat) (ho : off < prod s)
+    (hfit : ∀ x ∈ s, t.Fits x) (hf : t.Fits (prod s.tail)) (hn : prod s ≤ SZ) :
+    (mNdindex t s off).map (fun idx => mOffset idx (strides s)) = some off := by
+  rw [mNdindex_exact t hb s hs hfit hf off]
+  simp only [Option.map_some]
+  rw [(mOffset_inShape_exact s (ndindex s off) (indices_inShape hs off) hn).1]
+  exact congrArg some (offset_indices hs ho)
+
+/-- why the operands must be widened one by one: with the PRODUCT formed in the element type (the cast applied to
+    `stride*index`), `int` containers hit signed overflow (UB) and `uint32_t` containers wrap on shapes the theorems
+    above cover — `int` (3, 2^30) at (2,5); `uint32_t` (8,1,1024,1024,1,1024) at (5,0,3,2,0,1). -/
+theorem narrow_product_counterexample :
+    mOffsetNarrow ITy.i32 [2, 5] (strides [3, 1073741824]) = none
+    ∧ mOffset [2, 5] (strides [3, 1073741824]) = 2147483653
+    ∧ mOffsetNarrow ITy.u32 [5, 0, 3, 2, 0, 1] (strides [8, 1, 1024, 1024, 1, 1024]) = some 1076889601
+    ∧ mOffset [5, 0, 3, 2, 0, 1] (strides [8, 1, 1024, 1024, 1, 1024]) = 5371856897 := by decide
+
+/-- KNOWN FINDING strides.narrow-element-type (replayed on the real headers): the hypothesis of `mStrides_exact` is
+    needed — `index::stride` forms the suffix product in the element type of the shape container, so with `uint32_t`
+    extents (2,65537,65537) (every extent fits, 2^33 elements) the leading stride wraps, strides are not the products of
+    the trailing extents and the offset → multi-index map is wrong ((1,0,0) has offset 4295098369). -/
+theorem mStrides_unsigned_wrap_counterexample :
+    mStrides ITy.u32 [2, 65537, 65537] = some [131073, 65537, 1]
+    ∧ strides [2, 65537, 65537] = [4295098369, 65537, 1]
+    ∧ (∀ x ∈ [2, 65537, 65537], ITy.u32.Fits x)
+    ∧ mNdindex ITy.u32 [2, 65537, 65537] 4295098369 = some [0, 0, 0]
+    ∧ ndindex [2, 65537, 65537] 4295098369 = [1, 0, 0] := by decide
+
+/-- same class: a wrapped stride of 0 makes the two-argument `compute_indices` divide by zero, and with a signed element
+    type the product overflows (undefined behaviour) -/
+theorem mStrides_ub_counterexample :
+    mStrides ITy.u32 [2, 65536, 65536] = some [0, 65536, 1] ∧ mNdindex ITy.u32 [2, 65536, 65536] 5 = none
+    ∧ mStrides ITy.i32 [2, 65536, 65536] = none := by decide
+
+/-! non-vacuity of the machine-width hypotheses: `int` containers, more than 2^31 elements -/
+example : Pos [3, 1073741824] ∧ ITy.i32.Fits (prod [3, 1073741824].tail) ∧ (∀ x ∈ [3, 1073741824], ITy.i32.Fits x)
+    ∧ ¬ ITy.i32.Fits (prod [3, 1073741824]) ∧ InShape [2, 5] [3, 1073741824] ∧ prod [3, 1073741824] ≤ SZ := by decide
+example : mStrides ITy.i32 [3, 1073741824] = some [1073741824, 1] ∧ mNdindex ITy.i32 [3, 1073741824] 2147483653 = some [2, 5] := by decide
+example : (∀ x ∈ [2, 5], ITy.i32.Fits x) ∧ (∀ x ∈ [1073741824, 1], ITy.i32.Fits x) ∧ computeOffset [2, 5] [1073741824, 1] < SZ
+    ∧ ITy.i32.bits ≤ 64 := by decide
+example : mOffset [1, 4294967295] [18446744069414584320, 1] = 18446744073709551615
+    ∧ mOffset [2, 0] [9223372036854775808, 1] = 0 := by decide   -- the second wraps: hypothesis `< SZ` is needed
 
 /-! non-vacuity: concrete instances of the hypotheses -/
 example : Pos [2,3,4] ∧ InShape [1,2,3] [2,3,4] ∧ 23 < prod [2,3,4] := by decide
